@@ -94,7 +94,8 @@ func (dht *FullRT) GetClosestPeers(ctx context.Context, key string) ([]peer.ID, 
 # the read locks) can observe a mixture of two crawls. The lock invariants
 # above are checked at every unlock.
 func (dht *FullRT) runCrawler(ctx context.Context)
-  props C16
+  props C16 C14
+  ensures [accounted] tagged("wgdone:dht.wg")
   ghostvar $crawlNo int = 0
   modifies *
   ghost at call(Run): $crawlNo = $crawlNo + 1
@@ -109,14 +110,25 @@ func (dht *FullRT) runCrawler(ctx context.Context)
 # called between the validation and the struct literal do not modify the
 # config objects.
 func NewFullRT(h host.Host, protocolPrefix protocol.ID, options ...Option) (*FullRT, error)
-  props C16
+  props C16 C14
   constructor
   ghostvar $limit int = any
   ghostvar $k int = any
+  ghostvar $subMade bool = false
+  ghostvar $subClosed bool = false
+  ghostvar $cancelled bool = false
+  ghostvar $spawned int = 0
   modifies *
+  ensures [internal-error-releases-subscription-and-context] imp(result1 != nil, $spawned == 0 && imp($subMade, $subClosed && $cancelled))
+  ensures [internal-success-spawns-two-accounted-loops] imp(result1 == nil, $spawned == 2)
   ensures [internal-configured-limit] imp(result1 == nil, result0 != nil && result0.ipDiversityFilterLimit == $limit && result0.bucketSize == $k)
   ghost at before call(MsgSenderBuilder): assert(dhtcfg.BucketSize > 0 && fullrtcfg.ipDiversityFilterLimit >= 0)
   ghost at assign(rt): $limit = fullrtcfg.ipDiversityFilterLimit; $k = dhtcfg.BucketSize
+  ghost at call(Subscribe): $subMade = ($ret1 == nil)
+  ghost at call(cancel): $cancelled = true
+  ghost at call(Close): $subClosed = true
+  ghost at go(runCrawler): assert(wgcount(rt.wg) == 2); $spawned = $spawned + 1
+  ghost at go(runSubscriber): assert(wgcount(rt.wg) == 2); $spawned = $spawned + 1
 
 # Bulk sends neither panic (division by the table size, nil reports) nor start
 # workers when the table is empty: they return an error instead.
@@ -131,4 +143,24 @@ func (dht *FullRT) bulkMessageSend(ctx context.Context, keys []peer.ID, fn func(
   ghost at go(func): $started = true
   loop over keys invariant keySuccesses != nil && allT(k, peer.ID, imp(has(keySuccesses, k), keySuccesses[k] != nil))
   loop over keySuccesses invariant allT(k, peer.ID, imp(has(keySuccesses, k), keySuccesses[k] != nil))
+
+# C14: Close cancels, waits for both loops, then closes the stores that exist.
+func (dht *FullRT) Close() error
+  props C14
+  ghostvar $cancelled bool = false
+  ghostvar $pm bool = false
+  ghostvar $vs bool = false
+  modifies *
+  ensures [waits-for-own-goroutines] tagged("wgwait:dht.wg")
+  ensures [internal-closes-existing-stores] imp(dht.ProviderManager != nil, $pm) && imp(dht.valueStore != nil, $vs)
+  ghost at call(cancel): $cancelled = true
+  ghost at before call(Wait): assert($cancelled)
+  ghost at before call(Close)#0: assert(tagged("wgwait:dht.wg") && $recv == dht.ProviderManager); $pm = true
+  ghost at before call(Close)#1: assert(tagged("wgwait:dht.wg") && $recv == dht.valueStore); $vs = true
+
+# both loops report to the wait group on every exit
+func (dht *FullRT) runSubscriber()
+  props C14
+  modifies *
+  ensures [accounted] tagged("wgdone:dht.wg")
 @*/
